@@ -110,6 +110,16 @@ def solver_programs():
     return P
 
 
+def staged_programs():
+    """C02: SRK (SRID2) with every drift/diffusion evaluation as its own Lean definition (staged Taylor certificates)."""
+    from . import prog_solvers as ps
+    P = []
+    for noise in ('diagonal', 'scalar'):
+        fn, sample, funcs = ps.make_step('srk', 'ito', noise, 1, 1, stage_apps=True)
+        P.append(Prog(step_name('srk', 'ito', noise, 1, 1) + '_st', 'Staged', fn, sample, funcs=funcs, tol=4e-15, props=('C02',)))
+    return P
+
+
 def loop_programs():
     from . import prog_loop as pl
     P = []
@@ -203,4 +213,4 @@ def batch_programs():
 
 
 def all_programs():
-    return brownian_programs() + solver_programs() + loop_programs() + logqp_programs() + batch_programs()
+    return brownian_programs() + solver_programs() + loop_programs() + logqp_programs() + batch_programs() + staged_programs()
